@@ -141,7 +141,7 @@ REGISTRY["C10"] = dict(
          "boosts, term statistics, vectors and field lengths equal to the transposed analyzer output.",
     note=_BOUNDED)
 REGISTRY["C12"] = dict(
-    modules=["harness.c12_quality"], e2=True,
+    modules=["harness.c12_quality", "harness.c12_symbolic"], e2=True,
     technique="CrossHair symbolic query/threshold codes over real matchers and scorers (bounds at every position, skip_to_quality/replace never lose an entry above the threshold) + z3 reals through the real bm25()",
     text="For matchers compiled from real queries on real multi-block segments with the shipped scorers: block_quality >= current score, "
          "max_quality >= every remaining score, skip_to_quality(q)/replace(q) keep every entry scoring above q for q from a symbolic "
